@@ -9,6 +9,8 @@ matrix likewise; a predecessor table is `N,3,0,…`; a path is `u>v,u>v` (`F` = 
 Ops:
   sbs <sharemap>              → shares_by_server (model order)
   merge <sharemap> <trackers> → merge_servers
+  eff <existing> <trackers>   → the uploader's happiness test: servers_of_happiness(merge_servers(
+                                 PeerSelector.get_sharemap_of_preexisting_shares(), use_trackers))
   fnf <servermap>             → _flow_network_for
   soh <sharemap>              → servers_of_happiness
   trace <servermap>           → every residual network / bfs table / path of the loop, then the value
@@ -89,6 +91,9 @@ def handle : List String → String
     | none => "bad-op"
   | ["merge", m, t] => match parseSetMap m, parseSetMap t with
     | some m, some t => showSetMap (mergeServers m t)
+    | _, _ => "bad-op"
+  | ["eff", m, t] => match parseSetMap m, parseSetMap t with
+    | some m, some t => toString (effectiveHappiness m t)
     | _, _ => "bad-op"
   | ["fnf", m] => match parseSetMap m with
     | some m => showGraph (flowNetworkFor m)
